@@ -32,3 +32,8 @@ CLAIMS["C09"] = ("proof",
   "The attribute filters return only attributes allowed by the opt-in / exclusion / peer-version rule (whole result, loop invariants); the flags handed to the filters are exactly (opted in and not excluded) and (that, or peer older than 9.9.0) as the statement prescribes; the version gate is the lexicographic comparison; in the emit loop an attribute is written plainly on a keyed, non-encrypting stream only if it is not private, and a secret is buffered and flushed only while the stream is encrypting, after the marker frame was flushed, with the crypto mode restored on every exit; every frame written while encrypting is sealed (refinement of *stream.Stream against the message-level interface).",
   PROOF_NOTE + " classad.IsPrivateAttribute* are uninterpreted predicates (their case-insensitivity is the dependency's); the attribute a formatted expression belongs to is tracked through an assumed provenance label on fmt.Sprintf.",
   "deductive verification: WP over go/ssa + SMT (z3/cvc5)", "DESIGN.md 4 (C09)")
+
+CLAIMS["C17"] = ("proof",
+  "Lock discipline as proof obligations: every read or write of SessionEntry.expiration/lastPeerVersion/inherited and of SessionCache.sessions/commandMap in every function of session_cache.go happens while the owning mutex is held (write lock for writes, read or write lock for reads; ghost lock state, obligations guarded_by:*), every lock taken is released on every exit and never taken twice, and the functional contracts of Store/Lookup/LookupNonExpired/MapCommand/LookupByCommand/Invalidate/InvalidateExpired/Clear hold from every cache state satisfying the invariant (so an invalidation removes the session and all its command routes in one critical section - no lost invalidation by interleaving at the granularity of critical sections); NewAuthenticator does not write the SecurityConfig it is given (frame obligation), which is what lets handshakes share one configuration.",
+  PROOF_NOTE + " Data-race freedom follows from lock discipline by the usual argument (Go memory model: mutex-ordered accesses), which is not itself mechanised; schedules are not enumerated. Full-duplex use of a stream is covered by frames only: every send function writes only send-side fields and every receive function only receive-side fields once the handshake digests are frozen (frame and duplex obligations); that no send function reads a field a receive function writes is by inspection of the two assigns sets, not an obligation. Not covered by any contract: the rest of the handshake's use of the shared config beyond construction, ccb/listener.go.",
+  "deductive verification: WP over go/ssa + SMT (z3/cvc5), ghost lock state", "DESIGN.md 4 (C17)")
